@@ -350,29 +350,33 @@ class Ctx:
             with open(os.path.join(moddir, "go.mod"), "w") as f:
                 f.write(gm)
             shutil.copy(os.path.join(self.repo, "go.sum"), os.path.join(moddir, "go.sum"))
-            env = dict(GOENV)
-            if race:
-                env["CGO_ENABLED"] = "1"
-            base = ["go", "build", "-modfile=" + os.path.join(moddir, "go.mod"), "-tags", tags, "-o", out]
-            if race:
-                base.append("-race")
-            # Engines of all properties live in one package; a file of ANOTHER property that does not
-            # compile must not fail this check: files named in compile errors are left out and the
-            # build retried (an engine that is missing as a result makes its own check fail loudly).
-            allfiles = sorted(f for f in os.listdir(os.path.join(hdir, "cmd", "vh"))
-                              if f.endswith(".go") and not f.endswith("_test.go"))
-            excluded = set()
-            for _attempt in range(6):
-                files = [os.path.join("cmd", "vh", f) for f in allfiles if f not in excluded]
-                rc, log = sh(base + files, cwd=hdir, env=env, timeout=1200)
-                if rc == 0:
-                    break
-                culprits = set(re.findall(r"cmd/vh/([A-Za-z0-9_]+\.go):\d+", log)) - {"main.go"} - excluded
-                if not culprits:
-                    break
-                excluded |= culprits
-            if excluded and rc == 0:
-                self.note("harness built without non-compiling engine files: %s" % sorted(excluded))
+        # the build itself runs outside the lock (go build is safe to run concurrently)
+        tmp_out = "%s.tmp.%d" % (out, os.getpid())
+        env = dict(GOENV)
+        if race:
+            env["CGO_ENABLED"] = "1"
+        base = ["go", "build", "-modfile=" + os.path.join(moddir, "go.mod"), "-tags", tags, "-o", tmp_out]
+        if race:
+            base.append("-race")
+        # Engines of all properties live in one package; a file of ANOTHER property that does not
+        # compile must not fail this check: files named in compile errors are left out and the
+        # build retried (an engine that is missing as a result makes its own check fail loudly).
+        allfiles = sorted(f for f in os.listdir(os.path.join(hdir, "cmd", "vh"))
+                          if f.endswith(".go") and not f.endswith("_test.go"))
+        excluded = set()
+        for _attempt in range(6):
+            files = [os.path.join("cmd", "vh", f) for f in allfiles if f not in excluded]
+            rc, log = sh(base + files, cwd=hdir, env=env, timeout=1200)
+            if rc == 0:
+                break
+            culprits = set(re.findall(r"cmd/vh/([A-Za-z0-9_]+\.go):\d+", log)) - {"main.go"} - excluded
+            if not culprits:
+                break
+            excluded |= culprits
+        if excluded and rc == 0:
+            self.note("harness built without non-compiling engine files: %s" % sorted(excluded))
+        if rc == 0:
+            os.replace(tmp_out, out)
         if rc != 0:
             self.obligation("harness-build", "build", False, log[-1500:])
             self.violation("harness does not build against the working tree (hooks or exported API changed)",
